@@ -38,11 +38,18 @@ fn kind_name(k: u8) -> &'static str {
 
 pub fn gen_queue_client(tapes: &[Vec<u32>]) -> RawCase {
     let mut t = Tape::new(&tapes[0]);
-    let cfg = plain_cfg();
+    let mut cfg = plain_cfg();
     let k = 1 + t.below(3); // the peer's initial limit
     let q = 1 + t.below(3); // requests beyond it
     let n = k + q;
     let back_pressure = t.chance(1, 2);
+    // variant: the client's stream identifiers run out during the run (Builder::initial_stream_id close to 2^31-1);
+    // late requests are issued after that, and after a late frame for a stream the client has already forgotten
+    let exhaust = t.chance(1, 5);
+    let ids_left = if exhaust { 1 + t.below(n) } else { 0 };
+    if exhaust {
+        cfg.initial_stream_id = Some(0x7fff_ffff - 2 * (ids_left as u32 - 1));
+    }
     let mut reqs: Vec<Req> = Vec::new();
     let mut kinds: Vec<u8> = Vec::new();
     for i in 0..n {
@@ -79,6 +86,15 @@ pub fn gen_queue_client(tapes: &[Vec<u32>]) -> RawCase {
         kinds.push(kind);
         reqs.push(r);
     }
+    let nlate = if exhaust { 1 + t.below(2) } else { 0 };
+    for i in 0..nlate {
+        let mut r = default_req((n + i) as u32 + 1);
+        r.delay = 260 + 40 * i + t.below(60);
+        r.clone_handle = true;
+        reqs.push(r);
+        kinds.push(K_PEER_ENDS);
+    }
+    let n = n + nlate;
     // the last request's task may send a follow-up on the same handle (parks in poll_ready behind its own queued stream)
     let follow_up = t.chance(1, 4);
     if follow_up {
@@ -137,6 +153,35 @@ pub fn gen_queue_client(tapes: &[Vec<u32>]) -> RawCase {
     }
     script.push(PStep::Yield(40));
     script.push(PStep::Barrier);
+    if exhaust {
+        // (the script above stops at the first stream that is never opened; the late frames must not depend on it)
+        let stop = script.len();
+        let mut tail: Vec<PStep> = Vec::new();
+        for (i, kd) in kinds.iter().enumerate().take(ids_left) {
+            if *kd == K_PEER_ENDS || *kd == K_PEER_RESET {
+                let key = i as u32 + 1;
+                let f = match t.below(3) {
+                    0 => Frame::Data { stream: 0, end_stream: t.bool(), pad: None, data: b"late".to_vec() },
+                    1 => Frame::WinUp { stream: 0, inc: 10, inc_r: false },
+                    _ => Frame::Rst { stream: 0, code: 8 },
+                };
+                tail.push(for_key(key, PStep::RespondFrame { nth: 0, f }));
+            }
+        }
+        // placed before the first wait that can never be satisfied: after the answer to the last stream that can open
+        let mut at = stop;
+        for (i, st) in script.iter().enumerate() {
+            if matches!(st, PStep::WaitStreams(w) if *w > ids_left) {
+                at = i;
+                break;
+            }
+        }
+        tail.insert(0, PStep::Yield(30 + t.below(40)));
+        tail.push(PStep::Barrier);
+        for (j, st) in tail.into_iter().enumerate() {
+            script.insert(at + j, st);
+        }
+    }
     let spec = RawSpec { peer_settings: vec![(3, k as u32)], script, grant: Grant::Eager, close_at_end: false };
     let mut t2 = Tape::new(&tapes[1]);
     let ns = t2.below(300);
@@ -164,7 +209,7 @@ pub fn gen_queue_client(tapes: &[Vec<u32>]) -> RawCase {
         nest: vec![],
     };
     let inj = Inject {
-        item: format!("limit={}:queued={}:{}", k, q, disturbance),
+        item: format!("limit={}:queued={}:{}{}", k, q, disturbance, if exhaust { ":stream-ids-run-out" } else { "" }),
         state: kinds.iter().take(k).map(|k| kind_name(*k)).collect::<Vec<_>>().join("+"),
         class: Class::Either,
         stream: 0,
